@@ -15,11 +15,12 @@ META = dict(
          "compared with the model; non-trivial = at least two users overlap",
     trusted_base=[
         "Coq 8.16.1 kernel (coqc), vm_compute for evaluating the model on cases",
-        "hand-written model coq/Sched.v (Array._open_array's user-counting protocol, iterchunks, "
-        "open_array, __getitem__/__setitem__); frames via the GENERATED iterindices; tied by in-Coq "
-        "differential evaluation of whole schedules",
-        "that touching an unmapped page kills the interpreter is a fact about the runtime, observed "
-        "(child exit status), not modelled: the theorem shows the protocol never touches a closed map",
+        "hand-written model coq/Sched.v (Array._open_array's user-counting protocol, iterchunks reading "
+        "through the object's current map, open_array, __getitem__/__setitem__, _update_len renewing the "
+        "map); frames via the GENERATED iterindices; tied by in-Coq differential evaluation of whole schedules",
+        "that touching an unmapped page or a page beyond the end of the file kills the interpreter is a "
+        "fact about the runtime, observed (child exit status), not modelled: the theorem shows the "
+        "protocol never reads through a closed map nor beyond the present length",
     ],
     assumptions=["single-threaded interleavings (generator steps are atomic)"],
 )
